@@ -16,7 +16,8 @@ RULE = ('10% unit-spelling cases (one quantity per dimension spelled 2-4 '
         'both placement views are cross-checked. Non-trivial = a history in '
         'which some server was >=50% used in a dimension after a cycle and an '
         'eviction/move/lost placement occurred, with capacity vectors whose '
-        'dimensions differ. distinct = distinct canonical JSON of the case.')
+        'dimensions differ. distinct = distinct canonical JSON of the case.'
+        ' Since rounds 5-7: a third of the E1 cells are small; E2 histories include buckets leaving/re-entering the cell (cell_remove_bucket / cell_insert_bucket), re-parenting, and master starts with a stale second placement record of an instance.')
 ASSUMPTIONS = [
     'virtual clock replaces treadmill.scheduler.time (integer microseconds)',
     'servers are registered the way Loader.load_server does '
